@@ -1432,9 +1432,9 @@ class Kconfig(object):
                                     f"{self.config_prefix + new_name}"
                                     f"{' and inverted' if self._deprecated_options.is_inversion(name) else ''}"
                                 )
+                                # (a "# default:" marker in front of the line keeps its meaning for the new name)
                                 sym = new_sym
                                 name = new_name
-                                value_is_default = False
 
                     if not sym or not sym.nodes:
                         self._undef_assign(name, val, filename, linenr)
@@ -1533,7 +1533,6 @@ class Kconfig(object):
                                 )
                                 sym = new_sym
                                 name = new_name
-                                value_is_default = False
 
                     if not sym or not sym.nodes:
                         self._undef_assign(name, "n", filename, linenr)
